@@ -134,9 +134,13 @@ fn shard(ctx: &Ctx, ifaces: &[&'static IfaceDesc], shard: usize, cases: u64) -> 
     // malformed literals (the error paths of the literal parsers) to every parameter type
     if let Some(pz) = ifaces.iter().find(|i| i.name == "pzoo") {
         if shard == 0 {
-            let bad: [&[u8]; 34] = [
+            let bad: [&[u8]; 68] = [
                 b"#2xyhello", b"#1-", b"#1x", b"#9abc", b"#3 12abc", b"#21", b"#H", b"#HZZ", b"#Q9", b"#B2", b"#", b"1E", b"1E+", b"--1", b"1..2", b"'open", b"\"open", b"#0", b"#00",
                 b"@", b"1 2", b"1,", b",1", b"1,,2", b"#1", b"#9", b"#11", b"+", b"-", b".", b"1e1e1", b"#h", b"\xff", b"#2\xff\xfe12",
+                // near-syntax a later "small feature" may start to accept through a new code path:
+                // white space inside numbers, suffixes, keywords, expressions, other radix spellings
+                b"1.5 E3", b"1.5E +3", b"1.5 E +3", b"1.5\tE3", b"1 .5", b"+ 1", b"- 1", b"1.5V", b"1.5 V", b"10 MHZ", b"1E3HZ", b"1 E3 HZ", b"MIN", b"MAX", b"DEF", b"MINimum", b"UP",
+                b"(1,2)", b"(@1:3)", b"#H FF", b"#HFF ", b"1_000", b"0x10", b"INF", b"NINF", b"NAN", b"-INF", b"1.", b".5E", b"TRUE", b"FALSE", b"On", b"'a''b'", b"\"a\"\"b\"",
             ];
             for b in bad {
                 for t in crate::ev::ALL_TYS {
